@@ -621,6 +621,46 @@ CONDITIONS.append({"fn": "c26_tag_whitespace", "quick": 60, "thorough": 120, "se
                    "bounds": "12 x 12 whitespace strings (space, tab, CR, FF, VT, NBSP, em space, NEL, combinations) before / after a line break, 4 tag forms"})
 
 
+# ---- one parsed translate tag formatting several messages: the same template rendered again with another count, and the
+# tag inside a loop whose count changes per iteration (nothing learnt from one message may be applied to the next) ----------
+RR_PAIRS = [("One item", "{{ count }} items"), ("{{ count }} item", "Many items"), ("One %", "{{ count }} %%"), ("{{ n }} thing", "{{ n }} things ({{ count }})"),
+            ("plain", "plainer"), ("100%", "{{ count }}00%")]
+_RR_T = {}
+
+
+def rr_expected(pair, c, n):
+    text = RR_PAIRS[pair][0 if c == 1 else 1]
+    return text.replace("{{ count }}", str(c)).replace("{{ n }}", n)
+
+
+def rerender_case(pair, c1, c2, c3):
+    if pair not in _RR_T:
+        s1, s2 = RR_PAIRS[pair]
+        _RR_T[pair] = (ENV.from_string("{% translate count: c, n: n %}" + s1 + "{% plural %}" + s2 + "{% endtranslate %}"),
+                       ENV.from_string("{% for c in cs %}{% translate count: c, n: n %}" + s1 + "{% plural %}" + s2 + "{% endtranslate %}|{% endfor %}"))
+    t, tl = _RR_T[pair]
+    got = [render(t, {"c": c, "n": "N"}) for c in (c1, c2, c3)] + [render(tl, {"cs": [c1, c2, c3], "n": "N"})]
+    exp = [rr_expected(pair, c, "N") for c in (c1, c2, c3)]
+    exp.append("".join(e + "|" for e in exp))
+    return got, exp
+
+
+def c26_tag_rerender(pair: int, c1: int, c2: int, c3: int) -> bool:
+    """
+    pre: 0 <= pair <= 5 and 0 <= c1 <= 3 and 0 <= c2 <= 3 and 0 <= c3 <= 3
+    post: _
+    """
+    if excluded("c26_tag_rerender", locals()):
+        return True
+    pair, c1, c2, c3 = cint(pair, 0, 5), cint(c1, 0, 3), cint(c2, 0, 3), cint(c3, 0, 3)
+    got, exp = untraced(lambda: rerender_case(pair, c1, c2, c3))
+    return finish(got == exp)
+
+
+DETAIL["c26_tag_rerender"] = lambda pair, c1, c2, c3: {"singular / plural": RR_PAIRS[pair], "counts": (c1, c2, c3), "observed / expected": rerender_case(pair, c1, c2, c3)}
+CONDITIONS.append({"fn": "c26_tag_rerender", "quick": 40, "thorough": 80, "sel_only": True})
+
+
 ASSUMPTIONS = [
     "message texts are concrete members of the generated fragment family (selected by a symbolic index) or, in the c26_sym_* conditions, symbolic strings of length <= 3 / a placeholder with symbolic neighbours",
     "no `translations` variable in the render context (NullTranslations), autoescape off, default filter/tag options",
